@@ -206,24 +206,36 @@ def _oracle(ctx, kind, recipe, cdata):
     try:
         o2 = _unwrap(_parse(x1))
     except pywbem.Error as exc:
-        ctx.fail_exc(exc, 'own-xml-rejected')
+        ctx.fail('own-xml-rejected:' + _msg_key(exc),
+                 '%s\nXML: %s' % (exc, x1[:1500]))
         return
     exp = _expected_obj(kind, recipe)
     ce = canon(exp, OPT)
     c2 = canon(o2, OPT)
     ce, c2 = _apply_loss(kind, ce), _apply_loss(kind, c2)
     if ce != c2:
-        ctx.fail('roundtrip:' + _classify_diff(kind, recipe, ce, c2),
+        sig = _classify_diff(kind, recipe, ce, c2)
+        ctx.fail('roundtrip:' + sig,
                  'first difference: %s\nXML: %s' % (diff_path(ce, c2),
                                                     x1[:1500]))
-        return
+        if sig != 'string-exact:CR-normalised-to-LF':
+            return
+        # look behind the CR finding: with end-of-line normalisation applied
+        # to the expectation everything else must still agree
+        ce = _crnorm(ce)
+        if ce != c2:
+            ctx.fail('roundtrip:' + _classify_diff(kind, recipe, ce, c2),
+                     'first difference: %s\nXML: %s' % (diff_path(ce, c2),
+                                                        x1[:1500]))
+            return
     # second generation: encoding and parsing the parsed object once more
     # changes nothing
     x2 = o2.tocimxml().toxml()
     try:
         o3 = _unwrap(_parse(x2))
     except pywbem.Error as exc:
-        ctx.fail_exc(exc, 'own-xml-rejected-2nd')
+        ctx.fail('own-xml-rejected-2nd:' + _msg_key(exc),
+                 '%s\nXML: %s' % (exc, x2[:1500]))
         return
     x3 = o3.tocimxml().toxml()
     if x3 != x2:
@@ -234,6 +246,29 @@ def _oracle(ctx, kind, recipe, cdata):
                  diff_path(canon(o2, Opts()), canon(o3, Opts())))
     elif not _has_nan(recipe) and not (o3 == o2):
         ctx.fail('idempotence:not-equal', '%r != %r' % (o2, o3))
+
+
+def _sig(prefix, cls):
+    "one signature for the CR root cause whatever the channel"
+    if cls == 'string-exact:CR-normalised-to-LF':
+        return 'roundtrip:' + cls
+    return prefix + cls
+
+
+def _crnorm(c):
+    if isinstance(c, tuple):
+        return tuple(_crnorm(x) for x in c)
+    if isinstance(c, str):
+        return c.replace('\r\n', '\n').replace('\r', '\n')
+    return c
+
+
+def _msg_key(exc):
+    "stable key from a parse error message: element names and keywords only"
+    import re
+    msg = str(exc.args[0] if exc.args else exc)
+    words = re.findall(r"[A-Za-z][A-Za-z._]+", msg)[:9]
+    return type(exc).__name__ + ':' + '_'.join(words)
 
 
 def _has_nan(recipe):
@@ -285,7 +320,8 @@ def _oracle_value(ctx, recipe):
     ce = _charstr(vcanon(v, o, key=(t == 'reference')))
     cg = _charstr(vcanon(got, o, key=(t == 'reference')))
     if ce != cg:
-        ctx.fail('value-roundtrip:' + _classify_diff('value', recipe, ce, cg),
+        ctx.fail(_sig('value-roundtrip:', _classify_diff('value', recipe, ce,
+                                                          cg)),
                  '%s\nXML: %s' % (diff_path(ce, cg), xml[:800]))
 
 
@@ -309,7 +345,8 @@ def _oracle_paramvalue(ctx, recipe):
     try:
         name, ptype, child = _parse(xml)
     except pywbem.Error as exc:
-        ctx.fail_exc(exc, 'own-xml-rejected')
+        ctx.fail('own-xml-rejected:' + _msg_key(exc),
+                 '%s\nXML: %s' % (exc, xml[:1500]))
         return
     if name != p.name or ptype != p.type:
         ctx.fail('paramvalue:name-or-type', repr((name, ptype, p)))
@@ -325,10 +362,10 @@ def _oracle_paramvalue(ctx, recipe):
     else:
         exp = atomic_to_cim_xml(v)
     if exp != child:
-        ctx.fail('paramvalue:' + _classify_diff(
+        ctx.fail(_sig('paramvalue:', _classify_diff(
             'param_value', recipe,
             tuple(exp) if isinstance(exp, list) else exp,
-            tuple(child) if isinstance(child, list) else child),
+            tuple(child) if isinstance(child, list) else child)),
             'expected %r got %r\nXML: %s' % (exp, child, xml[:800]))
         return
     # the text of each value converts back to the typed value
